@@ -151,3 +151,11 @@ func die(f string, a ...interface{}) {
 func envBase() string { return os.Getenv("VERIF_BASE") }
 
 func bufioReader(s string) *bufio.Reader { return bufio.NewReader(strings.NewReader(s)) }
+
+// I0: an optional integer field (0 when absent).
+func I0(v interface{}) int {
+	if v == nil {
+		return 0
+	}
+	return I(v)
+}
